@@ -30,6 +30,9 @@ def describe(r):
     ev = r.get("event")
     if not ev:
         return "scenario %s rejected" % r["id"]
+    if ev[4] == 99:
+        return "unit %d of %s: the emulator panicked (%s) executing bytes %s at PC=%04X, IE=%02X IF=%02X" % (
+            r["index"], r["id"], ev[10] if len(ev) > 10 else "?", ["%02X" % b for b in ev[1]], ev[0][9], ev[5], ev[6])
     return ("unit %d of %s: spec state [%s] at the boundary; the real CPU went from PC=%04X SP=%04X to PC=%04X SP=%04X in %d cycles, IE=%02X IF=%02X afterwards, "
             "bytes at PC %s, raises %s - not a step of Int_Trace" % (r["index"], r["id"], r.get("state", "")[:160], ev[0][9], ev[0][8], ev[3][9], ev[3][8], ev[4], ev[5], ev[6],
                                                                    ["%02X" % b for b in ev[1]], ev[7]))
